@@ -18,6 +18,16 @@ type propMeta struct {
 var libReal = []string{"lexer", "parser", "ast", "compiler (evalfilter.go, compiler.go)", "vm (incl. optimizer)", "environment (built-ins, scopes)", "object", "stack", "code"}
 
 var props = map[string]*propMeta{
+	// not a property of evalfilter: the simulator's own primitives on programs
+	// with known outcomes (run by hand / by setup as a sanity check)
+	"SIMTEST": {
+		level: "exploration", race: true, quickBudget: 120, thoroughBudget: 900, stall: 20,
+		rule:           "scheduler, simulated mutex/RWMutex/Cond, polled channel operations and the deterministic pool on seven small programs with known outcomes, under all scheduling policies; the race detector watches the programs (which are race-free by construction)",
+		exhaustivePart: "none",
+		real:           []string{"verifsim"},
+		stub:           []string{},
+		assumptions:    []string{"this check guards the machinery, not evalfilter"},
+	},
 	"C20": {
 		level: "exploration", driver: true, quickBudget: 120, thoroughBudget: 1800, stall: 40,
 		rule: "(a) API histories: generated orders of SetVariable / AddFunction (14 result kinds incl. void, null, panic; 0-5 arguments, nested calls) / SetContext / Prepare (repeated) / Run / Execute / GetVariable on three evaluators fed identically (optimized+Execute, NoOptimize+Execute, optimized+Run) for straight-line probe scripts whose meaning an independent reference evaluator computes: result, failure, host-call trace with printed arguments in order, every variable afterwards, Run = truth of Execute. " +
